@@ -93,6 +93,10 @@ def _flatten_hyp(h, qf, univ, guard=None):
                 vars_ += inner[1]
                 body = ('implies', body[1], inner[2])
                 continue
+            if body[0] == 'implies' and body[2][0] == 'implies' and not is_qf(body[2]) and is_qf(body[1]) and is_qf(body[2][1]):
+                # g1 -> (g2 -> X)   ==   (g1 and g2) -> X
+                body = ('implies', ('and', [body[1], body[2][1]]), body[2][2])
+                continue
             break
         if guard is not None:
             body = ('implies', guard, body)
